@@ -269,7 +269,29 @@ def fuse_case_failures(d, groups, st=None, nested=None, cache=None):
                     if ps not in xu.blocks or not exact_equal(xu.blocks[ps], np.asarray(blk).transpose(perm)):
                         fails.append((f"C05/{name}/block", f"groups={groups}: block {s} not restored bit for bit"))
                         break
+    # conjugating the fused array and unfusing the new axes must give the conjugated original (all nesting levels of the
+    # sub-index info are conjugated); abelian only: the fermionic conj does not commute with fuse by design
+    if results and not ferm and new_axes:
+        xf = results[keys[0]]
+        try:
+            yu = unfuse_axes(xf.conj(), new_axes)
+            want_keys = tuple(conj_key(index_key(x.indices[p])) for p in perm)
+            if tuple(index_key(i) for i in yu.indices) != want_keys:
+                fails.append(("C05/conj-unfuse/indices", f"groups={groups}: fuse -> conj -> unfuse does not give the conjugated original indices"))
+            elif not exact_equal(embed(yu, frame, dtype=want.dtype), np.conj(want)) or yu.charge != G.neg(sym, x.charge):
+                fails.append(("C05/conj-unfuse/value", f"groups={groups}"))
+            if st is not None:
+                st.transitions += 2
+        except Exception as e:
+            fails.append((f"C05/conj-unfuse/raised-{type(e).__name__}", f"groups={groups}: {e}"))
     return fails, nontrivial
+
+
+def conj_key(k):
+    cm, dual, sub = k
+    if sub is not None:
+        sub = (tuple(conj_key(s) for s in sub[0]), sub[1])
+    return (cm, not dual, sub)
 
 
 def unfuse_axes(xf, axes):
